@@ -3,6 +3,7 @@ CONSTANTS Kinds = {"plain", "mixed", "enc", "root"}
           MixedServerSet = {"none", "rel"}
           MixedCoreServers = {}
           MixedMethKeys = {"G", "P", "GP"}
+          PlainMethKeys = {"G", "P", "GP"}
           MaxLen = 2
           MaxT = 3
           ServerSet = {"none", "rel"}
